@@ -363,14 +363,7 @@ class FrameOps:
         st, s = call(snap_frame, r)
         if st == 'ok':
             learn_frame(m, s)
-        try:
-            self.check_ent(e, op, full=True)
-        except Violation:
-            if op['op'] != 'fr_derive':
-                raise
-            del self.ents[e.h]
-            self.stats['derived_inconsistent_at_birth'] += 1
-            return 'inconsistent:' + type(r).__name__
+        self.check_ent(e, op, full=True)
         return 'ok:' + type(r).__name__
 
     def adopt_series(self, r, h, site, op):
@@ -929,6 +922,12 @@ class FrameOps:
                 if s is not None and norm_list(list(s.values)) != norm_list(list(s2.values)):
                     problems.append(f'column {lab!r} by label differs from position {j}')
                     break
+        if not problems:
+            st, dts = call(lambda: [str(x) for x in obj.dtypes.values])
+            if st == 'raise':
+                problems.append(f'dtypes raised {type(dts).__name__}: {dts}')
+            elif dts != [str(a.dtype) for a in arrays]:
+                problems.append(f'dtypes {dts} do not describe the data columns {[str(a.dtype) for a in arrays]}')
         if not problems and full:
             st, v = call(lambda: obj.values)
             if st == 'raise':
@@ -937,6 +936,9 @@ class FrameOps:
             if st == 'raise':
                 problems.append(f'display raised {type(v).__name__}: {v}')
         if problems:
+            never = not (e.go and e.extra.get('last_growth'))
+            if never and not pend and op.get('op') not in ('new_fr', 'fr_derive'):
+                fail('C09.isolation', '; '.join(problems), cls_='changed-by:' + self.site_of(op))
             fail('C09.atomic.torn' if pend else 'C09.lockstep', '; '.join(problems))
         # 2. content
         st, s = call(snap_frame, obj)
